@@ -999,3 +999,54 @@ func c09OnlyCloseNow(c *Ctx) {
 	}
 	c.R.Floor(rule+"/entry-forwarder-close-sites", n, 1)
 }
+
+// C06 NEEDMORE: the packet sniffer asks its caller to hold the flow for more
+// datagrams only when more datagrams can change the outcome.  extractSniFromTls
+// returns ErrNotFound exactly when it walked a complete extension block that
+// has no server name; on that edge SniffQuic must not set needMore (the control
+// plane withholds every datagram of a flow whose sniffer says NeedMore).
+func c06NeedMore(c *Ctx) {
+	const rule = "NEEDMORE"
+	f := c.fn(rule, "component/sniffing", "Sniffer.SniffQuic")
+	if f == nil {
+		return
+	}
+	info := f.Info()
+	g := f.Graph()
+	notFound := c.P.Pkg("component/sniffing").Types.Scope().Lookup("ErrNotFound")
+	n := 0
+	for _, b := range g.CFG.Blocks {
+		if !b.Live {
+			continue
+		}
+		for i, nd := range b.Nodes {
+			as, ok := nd.(*ast.AssignStmt)
+			if !ok || len(as.Lhs) != 1 || len(as.Rhs) != 1 || core.FieldOf(info, as.Lhs[0]) != "Sniffer.needMore" || core.ExprStr(as.Rhs[0]) != "true" {
+				continue
+			}
+			n++
+			excluded := false
+			for _, gd := range g.Guards(core.Point{B: b, I: i}) {
+				for _, at := range core.Atoms(gd.Cond, gd.Polarity) {
+					isNF, eq := false, true
+					switch x := ast.Unparen(at.Cond).(type) {
+					case *ast.CallExpr:
+						if cal := core.Callee(info, x); cal != nil && cal.Pkg() != nil && cal.Pkg().Path() == "errors" && cal.Name() == "Is" && len(x.Args) == 2 && usesObj(info, x.Args[1], notFound) {
+							isNF = true
+						}
+					case *ast.BinaryExpr:
+						if (x.Op == token.EQL || x.Op == token.NEQ) && usesObj(info, x.Y, notFound) {
+							isNF, eq = true, x.Op == token.EQL
+						}
+					}
+					if isNF && at.Polarity != eq {
+						excluded = true // on this path the error is known not to be ErrNotFound
+					}
+				}
+			}
+			c.R.Checkf(rule, "needMore-not-set-for-a-definitive-not-found@SniffQuic", c.pos(as.Pos()), excluded,
+				"needMore is set only on paths where the ClientHello parser's error is not ErrNotFound (ErrNotFound = a complete extension block without a server name, e.g. HTTP/3 to an IP literal): asking for more there makes the control plane withhold every datagram of the flow although nothing further can be learnt")
+		}
+	}
+	c.R.Floor(rule, n, 1)
+}
